@@ -204,6 +204,13 @@ func (vc *VC) instr(fr *Frame, st *State, ins ssa.Instruction) {
 		vc.store(st, p, t.Val.Type(), vc.val(fr, t.Val))
 	case *ssa.Defer:
 		fr.defers = append(fr.defers, deferred{t, st.reach})
+		if mc, ok := t.Call.Value.(*ssa.MakeClosure); ok {
+			if f, ok := mc.Fn.(*ssa.Function); ok && callsRecover(f) {
+				fr.recoverGuards = append(fr.recoverGuards, st.reach)
+			}
+		} else if f, ok := t.Call.Value.(*ssa.Function); ok && callsRecover(f) {
+			fr.recoverGuards = append(fr.recoverGuards, st.reach)
+		}
 	case *ssa.RunDefers:
 		vc.runDefers(fr, st)
 	case *ssa.Send:
